@@ -38,10 +38,13 @@ class HelpResolver(DefaultResolver):
     def create_resolved_command(
         self, result
     ):  # type: (ResolveResult) -> ResolvedCommand
-        result.command.config.enable_lenient_args_parsing()
+        config = result.command.config
+        was_lenient = config.is_lenient_args_parsing_enabled()
 
-        resolved_command = super(HelpResolver, self).create_resolved_command(result)
+        config.enable_lenient_args_parsing()
 
-        result.command.config.disable_lenient_args_parsing()
-
-        return resolved_command
+        try:
+            return super(HelpResolver, self).create_resolved_command(result)
+        finally:
+            if not was_lenient:
+                config.disable_lenient_args_parsing()
